@@ -14,9 +14,15 @@ func VerifSetBuilderClient(address string, client builder.Service) {
 	builders[address] = client
 }
 
-// VerifResetBuilderClients forgets all builder clients (harness only).
+// VerifResetBuilderClients forgets all builder clients (harness only).  It is called at the start of an execution,
+// before anything else runs: the package-level lock is replaced rather than taken, so that an execution which ended
+// with the lock held (a finding, reported by that execution's oracle) cannot block the next one.
 func VerifResetBuilderClients() {
-	buildersMu.Lock()
-	defer buildersMu.Unlock()
+	verifZero(&buildersMu)
 	builders = nil
+}
+
+func verifZero[T any](p *T) {
+	var z T
+	*p = z
 }
